@@ -545,12 +545,17 @@ def make_threading_facade():
 _LOADED = {}
 
 
-def load_sim_modules(repo="/repo"):
+def load_sim_modules(repo=None):
     """
     Loads /repo's threadpool.py under a private name with its `threading` and
     `queue` globals rebound to the simulated ones (queue = a fresh copy of the
     standard library's queue.py over simulated threading and virtual time).
     """
+    if repo is None:
+        # the copy of jsonrpclib that is actually imported (normally /repo)
+        import jsonrpclib
+        import os as _os
+        repo = _os.path.dirname(_os.path.dirname(_os.path.abspath(jsonrpclib.__file__)))
     if repo in _LOADED:
         return _LOADED[repo]
     import queue as _q
